@@ -148,6 +148,12 @@ module Z =
     | Gt -> m
     | _ -> n
 
+  (** val of_nat : nat -> coq_Z **)
+
+  let of_nat = function
+  | O -> Z0
+  | S n0 -> Zpos (Pos.of_succ_nat n0)
+
   (** val of_N : coq_N -> coq_Z **)
 
   let of_N = function
